@@ -419,4 +419,207 @@ theorem bl17_cookware_filler_loose (cF c : AComp) (hF : CompFiller cF c) (p' p :
   rw [hcs] at h2'
   exact ⟨_, _, h1', h1, bl17_cw_loose h2' h2⟩
 
+/-! ### timers -/
+
+/-- the timer `cF` is the timer `c` with filler inside its name and the unit of its quantity -/
+structure TimerFiller (cF c : ATimer) : Prop where
+  name : OptRel FillerIn cF.name c.name
+  qty : OptRel QtyFiller cF.qty c.qty
+
+theorem TimerFiller.refl (c : ATimer) : TimerFiller c c :=
+  ⟨OptRel.refl_of (A := FillerIn) (fun l => .same l) _, OptRel.refl_of (A := QtyFiller) QtyFiller.refl _⟩
+
+/-- **`timer` with filler inside the name / the unit**: the event matches the clean timer -/
+theorem bl17_timerP (cF c : ATimer) (hF : TimerFiller cF c) (p : CPad) (s : BP α) (hsp : s.cs.uws ' ' = true)
+    (hwf : c.wf s.cs s.ext = true) (hp : p.ok s.cs = true)
+    (A ts rest : List Tok) (hs : Spells ts (spellTimer cF p)) (ht : s.toks = A ++ (ts ++ rest))
+    (hc : s.cur = A.length) (hrest : noParenNext rest = true) (hrun : RunAt (baseOff s.toks) s.toks) :
+    ∃ tmr : PTimer α,
+      timerP s = (some (.timer ⟨tmr, ⟨offAt s.toks A.length, offAt s.toks (A.length + ts.length)⟩⟩),
+        { s with cur := A.length + ts.length }) ∧ TimerMatches s.cs c tmr := by
+  simp only [ATimer.wf, Bool.and_eq_true] at hwf
+  obtain ⟨hname, hqty⟩ := hwf
+  simp only [CPad.ok, Bool.and_eq_true] at hp
+  obtain ⟨⟨⟨⟨hpn1, hpa0⟩, hpa1⟩, hpq⟩, hpe⟩ := hp
+  obtain ⟨tm, nm, n1, tob, Q, tcb, rfl, htmk, hnm, hn1, hobk, hQ, hcbk⟩ := rtt_timer_decomp hs
+  have hn1k := pad_kinds hpn1 hn1
+  -- kinds of the name tokens
+  have hnmk : ∀ t ∈ nm, nameKind t.kind = true ∨ t.kind = .ws ∨ t.kind = .blockComment := by
+    intro t ht'
+    rcases hF.name.elim with ⟨eF, hcn⟩ | ⟨nF, n, eF, hcn, hnF⟩
+    · rw [eF] at hnm; simp only [spellOptLeaf] at hnm; rw [hnm.nil_inv] at ht'; simp at ht'
+    · rw [eF] at hnm
+      rw [hcn] at hname
+      simp only [Bool.and_eq_true] at hname
+      exact bl17_leaf_kinds hname.1.1 hnF hnm t ht'
+  have hNTk : ∀ t ∈ nm ++ n1, (t.kind == .openBrace || isMarker t.kind) = false ∧ t.kind ≠ .openParen := by
+    intro t ht'
+    rcases List.mem_append.mp ht' with ht' | ht'
+    · exact ⟨(nameKind_excl (hnmk t ht')).1, (nameKind_excl (hnmk t ht')).2.1⟩
+    · exact ⟨(nameKind_excl (Or.inr (hn1k t ht'))).1, (nameKind_excl (Or.inr (hn1k t ht'))).2.1⟩
+  -- the quantity tokens
+  have hQfacts : (∀ t ∈ Q, t.kind ≠ .closeBrace) ∧ Q.any (fun t => !isPadK t) = c.qty.isSome := by
+    rcases hF.qty.elim with ⟨eF, hcq⟩ | ⟨qF, q, eF, hcq, hqF⟩
+    · rw [eF] at hQ
+      have := pad_kinds hpe hQ
+      refine ⟨fun t ht' => by rcases this t ht' with h' | h' <;> simp [h'], ?_⟩
+      simp only [hcq, Option.isSome_none, List.any_eq_false]
+      intro t ht'
+      rcases this t ht' with h' | h' <;> simp [isPadK, h']
+    · rw [eF] at hQ
+      rw [hcq] at hqty
+      simp only [Bool.and_eq_true] at hqty
+      have := bl17_qty_kinds qF q hqF p.q hqty.1.1 hpq Q hQ
+      exact ⟨this.1, by simp [this.2, hcq]⟩
+  have e1 : s.toks = A ++ tm :: ((nm ++ n1) ++ tob :: (Q ++ tcb :: rest)) := by rw [ht]; simp
+  have h1 := consumeK_split_some .tilde s A tm _ e1 hc htmk
+  -- the first token after `~` is not a modifier character
+  have hhead : ∃ x R, (nm ++ n1) ++ tob :: (Q ++ tcb :: rest) = x :: R ∧
+      (s.ext.has Gen.EXT_COMPONENT_MODIFIERS = true → modKind x.kind = false) ∧ x.kind ≠ .openParen := by
+    cases hnmc : nm with
+    | nil =>
+      cases hn1c : n1 with
+      | nil => exact ⟨tob, _, rfl, by intro _; rw [hobk]; rfl, by rw [hobk]; simp⟩
+      | cons y ys =>
+        refine ⟨y, _, rfl, ?_, ?_⟩
+        · intro _; rcases hn1k y (by rw [hn1c]; simp) with h' | h' <;> rw [h'] <;> rfl
+        · rcases hn1k y (by rw [hn1c]; simp) with h' | h' <;> rw [h'] <;> simp
+    | cons y ys =>
+      refine ⟨y, _, rfl, ?_, (hNTk y (by rw [hnmc]; simp)).2⟩
+      intro hext
+      rcases hF.name.elim with ⟨eF, hcn⟩ | ⟨nF, n, eF, hcn, hnF⟩
+      · rw [eF, hnmc] at hnm; simp only [spellOptLeaf] at hnm; exact absurd hnm.nil_inv (by simp)
+      · rw [eF, hnmc] at hnm
+        rw [hcn] at hname
+        simp only [spellOptLeaf] at hnm
+        simp only [Bool.and_eq_true] at hname
+        obtain ⟨u, ur, hu, hau⟩ := (leafOK_facts hname.1.1).head
+        obtain ⟨ur', hu'⟩ := hnF.head hu
+        rw [hu'] at hnm
+        obtain ⟨hd, nmr, hnmeq, hhdk, -, -⟩ := hnm.cons_inv
+        simp only [List.cons.injEq] at hnmeq
+        have hmh := hname.1.2
+        simp only [Ext.modifiers, hext, Bool.not_true, Bool.false_or, hu, List.head?_cons, Option.all_some] at hmh
+        rw [hnmeq.1, hhdk]; simpa using hmh
+  obtain ⟨x, R, hxR, hxmod, hxp⟩ := hhead
+  have h2 : modifiersP ({ s with cur := A.length + 1 } : BP α) = ([], { s with cur := A.length + 1 }) := by
+    by_cases hext : s.ext.has Gen.EXT_COMPONENT_MODIFIERS = true
+    · have := modifiersP_on ({ s with cur := A.length + 1 } : BP α) hext (A ++ [tm]) [] x R
+        (by rw [e1, hxR]; simp) (by simp) (by intro m hm; simp at hm) (hxmod hext) hxp
+      rw [this]; simp
+    · have hext' : s.ext.has Gen.EXT_COMPONENT_MODIFIERS = false := by simpa using hext
+      exact modifiersP_off ({ s with cur := A.length + 1 } : BP α) hext'
+  have h3 := compBody_run ({ s with cur := A.length + 1 } : BP α) (A ++ [tm])
+    (nm ++ n1) tob Q tcb rest (by rw [e1]; simp) (by simp) (fun t ht' => (hNTk t ht').1) hobk hQfacts.1 hcbk
+  have hlen : (A ++ [tm]).length + (nm ++ n1).length + 1 + Q.length + 1 =
+      A.length + (tm :: (nm ++ n1 ++ tob :: (Q ++ [tcb]))).length := by lenarith
+  rw [hlen] at h3
+  -- no alias separator in the name
+  have hnoOr : s.ext.has Gen.EXT_COMPONENT_ALIAS = true → (nm ++ n1).findIdx? (fun t => t.kind == .or) = none := by
+    intro hext
+    apply rt_findIdx_none
+    intro t ht'
+    rcases List.mem_append.mp ht' with ht' | ht'
+    · rcases hF.name.elim with ⟨eF, hcn⟩ | ⟨nF, n, eF, hcn, hnF⟩
+      · rw [eF] at hnm; simp only [spellOptLeaf] at hnm; rw [hnm.nil_inv] at ht'; simp at ht'
+      · rw [eF] at hnm
+        rw [hcn] at hname
+        simp only [spellOptLeaf] at hnm
+        simp only [Bool.and_eq_true] at hname
+        obtain ⟨u', hu', hk', -⟩ := hnm.mem ht'
+        have hno := hname.2
+        simp only [Ext.alias, hext, Bool.not_true, Bool.false_or, List.all_eq_true, bne_iff_ne] at hno
+        rw [hk']
+        rcases hnF.mem hu' with h' | h'
+        · simpa using hno u' h'
+        · simpa using bl17Pad_not_or h'
+    · rcases hn1k t ht' with h' | h' <;> simp [h']
+  have h4 := checkNoteTimer_skip ({ s with cur := A.length + (tm :: (nm ++ n1 ++ tob :: (Q ++ [tcb]))).length } : BP α)
+    (A ++ tm :: (nm ++ n1 ++ tob :: (Q ++ [tcb]))) rest (by rw [ht]; simp) (by simp)
+    (by
+      intro t ht'
+      simp only [noParenNext, ht', Option.all_some, bne_iff_ne] at hrest
+      simpa using hrest)
+  -- the name
+  have hrunName : RunAt (offAt s.toks (A.length + 1)) (nm ++ n1) := by
+    have := rt_runAt_mid hrun (A ++ [tm]) (nm ++ n1) (tob :: (Q ++ tcb :: rest)) (by rw [e1]; simp)
+    have e2 : (A ++ [tm]).length = A.length + 1 := by lenarith
+    rwa [e2] at this
+  have hrunQ : RunAt (baseOff Q) Q :=
+    (rt_runAt_mid hrun (A ++ [tm] ++ (nm ++ n1) ++ [tob]) Q (tcb :: rest) (by rw [e1]; simp)).base
+  have hnameR : (if (buildText (offAt s.toks (A.length + 1)) (nm ++ n1)).isTextEmpty s.cs then none
+        else some (buildText (offAt s.toks (A.length + 1)) (nm ++ n1))).map (fun x => x.trimmed s.cs) =
+      c.name.map leafText ∧
+      ((buildText (offAt s.toks (A.length + 1)) (nm ++ n1)).isTextEmpty s.cs = c.name.isNone) := by
+    rcases hF.name.elim with ⟨eF, hcn⟩ | ⟨nF, n, eF, hcn, hnF⟩
+    · rw [eF] at hnm; simp only [spellOptLeaf] at hnm
+      have := hnm.nil_inv; subst this
+      have := rtt_buildText_pad_empty (cs := s.cs) (offAt s.toks (A.length + 1)) n1 (hn1.padOK_of hpn1)
+      simp [this, hcn]
+    · rw [eF] at hnm
+      rw [hcn] at hname
+      simp only [spellOptLeaf] at hnm
+      simp only [Bool.and_eq_true] at hname
+      have := bl17_leaf_text (cs := s.cs) (allowed := nameKind) (pre := []) (l := n) (lF := nF) (post := p.n1)
+        (ts := nm ++ n1) (by simpa using hnm.append hn1) rfl hpn1 hname.1.1 hnF hsp (offAt s.toks (A.length + 1))
+      simp [this.1, this.2, hcn]
+  obtain ⟨e, he⟩ : ∃ e, e = A.length + (tm :: (nm ++ n1 ++ tob :: (Q ++ [tcb]))).length := ⟨_, rfl⟩
+  rw [← he] at h3 h4 ⊢
+  unfold timerP
+  rcases Bool.eq_false_or_eq_true (s.ext.has Gen.EXT_COMPONENT_ALIAS) with hal | hal
+  all_goals
+    simp only [bind, StateT.bind, currentOffset_run, h1, h2, h3, h4, List.isEmpty_nil, Bool.not_true,
+      Bool.false_eq_true, if_false, if_true, hasExt_run, hal, hnoOr, bpText_run hrunName, get, getThe,
+      MonadStateOf.get, StateT.get, pure, StateT.pure, hQfacts.2]
+    rcases hF.qty.elim with ⟨eF, hcq⟩ | ⟨qF, q, eF, hcq, hqF⟩
+    · rw [hcq] at hqty
+      simp only [Bool.and_eq_true, Bool.not_eq_true'] at hqty
+      have hnn : c.name.isNone = false := by
+        cases hcn : c.name with
+        | none => rw [hcn] at hqty; simp at hqty
+        | some n => rfl
+      have hne := hnameR.2
+      rw [hnn] at hne
+      refine ⟨⟨some (buildText (offAt s.toks (A.length + 1)) (nm ++ n1)), none⟩, ?_, ?_, ?_⟩
+      · simp [hcq, pure, bind, StateT.pure, StateT.bind, hqty.2, hne, hc]
+      · have := hnameR.1
+        rw [hne] at this
+        simpa using this
+      · rw [hcq]; trivial
+    · rw [eF] at hQ
+      rw [hcq] at hqty
+      simp only [Bool.and_eq_true, Bool.or_eq_true, Bool.not_eq_true'] at hqty
+      obtain ⟨vspan, lspan, unitT, sep, hpq', hl, hunit, hsep⟩ := bl17_parseQuantity qF q hqF p.q
+        ({ s with cur := e } : BP α) hsp hqty.1.1 hpq
+        (by intro hr; rcases hqty.2 with h | h; · rw [hr] at h; cases h
+            · exact h)
+        (by intro _; simp [AQty.advSafe, hqty.1.2])
+        Q hQ hrunQ
+      have hus : unitT ≠ none := by
+        cases hu : q.unit with
+        | none => rw [hu] at hqty; simp at hqty
+        | some u => rw [hu] at hunit; cases unitT <;> simp_all
+      refine ⟨⟨if (buildText (offAt s.toks (A.length + 1)) (nm ++ n1)).isTextEmpty s.cs then none
+          else some (buildText (offAt s.toks (A.length + 1)) (nm ++ n1)),
+        some ⟨⟨⟨⟨q.val.denote, vspan⟩, lspan⟩, unitT⟩, tokensSpan Q⟩⟩, ?_, hnameR.1, ?_⟩
+      · simp [hcq, pure, bind, StateT.pure, StateT.bind, hpq', hus, hc]
+      · rw [hcq]
+        exact ⟨rfl, hl, hunit⟩
+
+/-- **Timer, filler against clean spelling.** -/
+theorem bl17_timer_filler_loose (cF c : ATimer) (hF : TimerFiller cF c) (p' p : CPad) (s' s : BP α)
+    (hcs : s'.cs = s.cs) (hext : s'.ext = s.ext) (hsp : s.cs.uws ' ' = true)
+    (hwf : c.wf s.cs s.ext = true) (hp' : p'.ok s.cs = true) (hp : p.ok s.cs = true)
+    (A' ts' rest' A ts rest : List Tok) (hs' : Spells ts' (spellTimer cF p')) (hs : Spells ts (spellTimer c p))
+    (ht' : s'.toks = A' ++ (ts' ++ rest')) (ht : s.toks = A ++ (ts ++ rest))
+    (hc' : s'.cur = A'.length) (hc : s.cur = A.length) (hrest' : noParenNext rest' = true) (hrest : noParenNext rest = true)
+    (hrun' : RunAt (baseOff s'.toks) s'.toks) (hrun : RunAt (baseOff s.toks) s.toks) :
+    ∃ ev' ev : Ev α, timerP s' = (some ev', { s' with cur := A'.length + ts'.length }) ∧
+      timerP s = (some ev, { s with cur := A.length + ts.length }) ∧ EvLoose s.cs ev' ev := by
+  obtain ⟨i', h1', h2'⟩ := bl17_timerP cF c hF p' s' (by rw [hcs]; exact hsp) (by rw [hcs, hext]; exact hwf)
+    (by rw [hcs]; exact hp') A' ts' rest' hs' ht' hc' hrest' hrun'
+  obtain ⟨i, h1, h2⟩ := rt_timerP c p s hwf hp A ts rest hs ht hc hrest hrun
+  rw [hcs] at h2'
+  exact ⟨_, _, h1', h1, bl17_timer_loose h2' h2⟩
+
 end Cook
